@@ -45,6 +45,19 @@ theorem text_lines (L : List Str) (hne : L ≠ []) (h : ∀ l ∈ L, NoNL l) (hl
     ofText (toText L) = L :=
   ofText_toText L hne h hlast
 
+/-- `%.Pg` is correctly rounded: the printed number is within half a unit of its last significant
+digit, `10^(X-P+1)` with `X` the decimal exponent of `|x|` -/
+theorem roundSig_error (P : Nat) (hP : 1 ≤ P) (x : Rat) (hx : x ≠ 0) :
+    |roundSigP P x - x| ≤ (10 : Rat) ^ (sciExp x.num.natAbs x.den - (P : Int) + 1) / 2 :=
+  roundSigP_error P hP x hx
+
+/-- the decimal exponent used by `%g` is the right one: `10^X ≤ n/d < 10^(X+1)` -/
+theorem sciExp_correct (n d : Nat) (hn : 0 < n) (hd : 0 < d) :
+    (10 : Rat) ^ (sciExp n d) ≤ (n : Rat) / (d : Rat) ∧ (n : Rat) / (d : Rat) < (10 : Rat) ^ (sciExp n d + 1) :=
+  sciExp_spec n d hn hd
+
+example : (1 : Nat) ≤ 6 ∧ ((1 : Rat) / 3 ≠ 0) := ⟨by decide, by norm_num⟩
+
 /-! ## Stage 2: per-format round trips (string level) -/
 
 theorem roundtrip_xyz (d : XyzS) (h : reprXyz d = true) : parseTextXyz (writeTextXyz d) = .ok (quantXyz d) :=
